@@ -227,6 +227,9 @@ BagObl(px, b, den, bind, natural) ==
 (*            (and the right operand again, B)                             *)
 (*   addel    R = A + Element(v, n): a single component as right operand;  *)
 (*            A observed again (A2)                                        *)
+(*   addsum   R = A + B; then R.add(v, n) in place: R, and BOTH operands    *)
+(*            again (A2, B) - a sum does not share state with its operands *)
+(*   addopnd  R = A + B; then B.add(v, n) in place: B, and the sum again   *)
 (*   addin    A.add(v, n) in place, observed as R; afterwards toks2 (B)    *)
 (*            and toks itself (C) are parsed afresh: what was done to one  *)
 (*            object does not reach formulas parsed later                  *)
@@ -239,14 +242,15 @@ FormulaRec(it) ==
   IF ~Parses(it.toks) THEN [id |-> it.id, kind |-> "formula", cls |-> "ill", toks |-> it.toks]
   ELSE
   LET bag  == Expand(ast)
-      two  == it.op \in {"add", "iadd", "addin"}
+      two  == it.op \in {"add", "iadd", "addin", "addsum", "addopnd"}
       ast2 == IF two THEN ParseIdeal(it.toks2) ELSE <<>>
       ok2  == ~two \/ Parses(it.toks2)
       bag2 == IF two /\ ok2 THEN Expand(ast2) ELSE BZero
       bagR == CASE it.op \in {"add", "iadd"} -> BAdd(bag, bag2)
                 [] it.op \in {"addin", "addel"} -> BAdd(bag, BScale(it.n[1], BUnit(it.v)))
                 [] OTHER -> bag
-      all  == BAdd(bagR, bag2)
+      nv   == IF it.op \in {"addin", "addel", "addsum", "addopnd"} THEN BScale(it.n[1], BUnit(it.v)) ELSE BZero
+      all  == BAdd(BAdd(bagR, bag2), nv)
       used == {v \in Vars : all[v] > 0}
       badsp == \E v \in used : ~SpValid(it.bind[v])
       unsp  == ~badsp /\ \E v \in used : SpUnspecified(it.bind[v], it.natural)
@@ -264,6 +268,8 @@ FormulaRec(it) ==
                ELSE O("A.", bag, 1)
                     \o (CASE it.op = "add"     -> O("R.", bagR, 1) \o O("A2.", bag, 1) \o O("B.", bag2, 1)
                            [] it.op = "mul"     -> O("R.", BScale(it.n[1], bag), it.n[2]) \o O("A2.", bag, 1)
+                           [] it.op = "addsum"  -> O("R.", BAdd(BAdd(bag, bag2), nv), 1) \o O("A2.", bag, 1) \o O("B.", bag2, 1)
+                           [] it.op = "addopnd" -> O("R.", BAdd(bag, bag2), 1) \o O("A2.", bag, 1) \o O("B.", BAdd(bag2, nv), 1)
                            [] it.op = "iadd"    -> O("R.", bagR, 1) \o O("B.", bag2, 1)
                            [] it.op = "imul"    -> O("R.", BScale(it.n[1], bag), it.n[2])
                            [] it.op = "addel"   -> O("R.", bagR, 1) \o O("A2.", bag, 1)
